@@ -8,7 +8,7 @@ from checks.C07 import load_corpus, norm_case, dump_debug
 META = dict(
     text='Coq theorems on faithful models of the offsetter (arc sagitta and step cap, DoRound recurrence on the circle, miter and square reach, '
          'offset edge at distance |delta| on the selected side, join selection total and exclusive, early return for |delta|<0.5, '
-         'orientation plan incl. its refutation by the delta_ leak) + exact binary64 model of the raw offset curve tied bit-for-bit to '
+         'sign of delta / fill rule / reversal flag decided by the path\'s own group and the call\'s consistent orientation) + exact binary64 model of the raw offset curve tied bit-for-bit to '
          'DoGroupOffset + public API validated against the Coq-defined signed-distance specification with exact rational tests',
     note='Theorems are about Gallina models (OffsetPlan.v, OffsetGeom.v) and real-number geometry; the models are tied to the current source on '
          'every run by executed correspondence (observer callback for member values, private-access call of DoGroupOffset for raw curves, bit exact). '
@@ -99,11 +99,11 @@ def inflate_vs_execute(ctx, T, cases):
         a = outs[2 * i].split(); b = oc.parse_exe(outs[2 * i + 1])
         ctx.count('evaluations', 1)
         if a[0] != 'OK' or not b['ok']:
-            ctx.violation('offset.crash-or-exception', 'C06: harness answered %s / %s' % (outs[2 * i][:200], outs[2 * i + 1][:200]), replay=dict(kind='c06-inf', case=c))
+            oc.viol(ctx, 'offset.crash-or-exception', 'C06: harness answered %s / %s' % (outs[2 * i][:200], outs[2 * i + 1][:200]), replay=dict(kind='c06-inf', case=c))
             continue
         sa, _ = vf.parse_paths(a, 2)
         if sa != b['sol']:
-            ctx.violation('offset.c06.inflatepaths-differs-from-execute', 'C06: InflatePaths and ClipperOffset::Execute give different results (delta %s)' % c['delta'],
+            oc.viol(ctx, 'offset.c06.inflatepaths-differs-from-execute', 'C06: InflatePaths and ClipperOffset::Execute give different results (delta %s)' % c['delta'],
                           replay=dict(kind='c06-inf', case=c))
 
 
@@ -142,7 +142,7 @@ def run(ctx):
     try:
         T = oc.Tools(ctx)
     except vf.BuildFailure as e:
-        ctx.violation('tie-break:cx_offset-build', 'the offset harness no longer builds against the tree (a modelled member or function changed): %s' % str(e)[-600:],
+        oc.viol(ctx, 'tie-break:cx_offset-build', 'the offset harness no longer builds against the tree (a modelled member or function changed): %s' % str(e)[-600:],
                       replay=dict(kind='build'), nofail=True)
         return
     nv0 = len(ctx.violations)
@@ -180,11 +180,15 @@ def run(ctx):
     r2 = rng.fork(2)
     inflate_vs_execute(ctx, T, [gen_case(r2) for _ in range(B['inf'])])
 
-    # far-apart units: together == alone (exact); includes the witness of C06_orientation_plan_refuted
+    # far-apart units: together == alone (exact); includes the two witnesses that refuted C06_orientation_plan /
+    # C06_orientation_preserved before offset-delta-abs-leak.patch and offset-empty-group-orientation.patch
     r3 = rng.fork(3)
     far = [gen_far_case(r3) for _ in range(B['multi'])]
     far.append(dict(ml=2.0, at=0.0, pc=0, rev=0, delta=-10.0, orient=1,
                     groups=[dict(jt=0, et=0, paths=[[]]), dict(jt=0, et=0, paths=[[(0, 0), (100, 0), (100, 100), (0, 100)]])],
+                    units=[(0, [0]), (1, [0])]))
+    far.append(dict(ml=2.0, at=0.0, pc=0, rev=0, delta=10.0, orient=-1,
+                    groups=[dict(jt=3, et=0, paths=[[]]), dict(jt=3, et=0, paths=[[(0, 100), (100, 100), (100, 0), (0, 0)]])],
                     units=[(0, [0]), (1, [0])]))
     nb = oc.locality_eval(ctx, T, far, 'C06 locality', 'c06-local', key_of=c06_locality_key)
     ctx.count('locality_cases', len(far)); ctx.count('locality_differences', nb)
@@ -204,7 +208,7 @@ def run(ctx):
     if not pr['ok'] or ties_broken:
         search(ctx, T, rng.fork(9), 3000 if ctx.quick else 30000)
         if not pr['ok'] and not any(not v['nofail'] for v in ctx.violations):
-            ctx.violation('proof-break:Properties_C06', 'Properties_C06 no longer builds: %s' % '; '.join(pr['failed'])[:800],
+            oc.viol(ctx, 'proof-break:Properties_C06', 'Properties_C06 no longer builds: %s' % '; '.join(pr['failed'])[:800],
                           replay=dict(kind='proof', failed=pr['failed']), nofail=True)
 
     ctx.cov['distinct_nontrivial'] = len(nontriv)
@@ -231,7 +235,7 @@ def replay(ctx, path):
     if kind in ('proof', 'build'):
         pr = vf.coq_props(ctx, 'C06')
         if not pr['ok']:
-            ctx.violation('proof-break:Properties_C06', '; '.join(pr['failed'])[:800], replay=rp, nofail=True)
+            oc.viol(ctx, 'proof-break:Properties_C06', '; '.join(pr['failed'])[:800], replay=rp, nofail=True)
         return
     if kind == 'fop':
         oc.float_selftest(ctx, T)
